@@ -38,6 +38,8 @@ type SpecEnv struct {
 	macroDepth int
 	entrySt     *State
 	entryLocals func(name string) (specVal, bool)
+	mapIt       *Term        // iterator of the map-range loop whose invariant is being evaluated
+	mapItInfo   *mapIterInfo // its map
 }
 
 type fvBinding struct {
@@ -747,6 +749,15 @@ func (env *SpecEnv) call(e *SExpr) specVal {
 			return specVal{Select(Select(fx.heapGet(env.st, dn, ds), m.t), c.t), tBool}
 		}
 		return specVal{Select(Select(fx.heapGet(env.st, vn, vs), m.t), c.t), mt.Elem()}
+	case "visited":
+		// visited(k): in the invariant of a range loop over a map: key k was handed out by an earlier iteration
+		if env.mapIt == nil {
+			env.fail("visited() is only available in the invariant of a range loop over a map")
+		}
+		k := env.expr(e.Args[0])
+		ks := fx.mapKeySort(env.mapItInfo.kt)
+		hs := ArrSort(SInt, ArrSort(ks, SBool))
+		return specVal{Select(Select(fx.heapGet(env.st, "G_visited_"+sanitize(string(ks)), hs), env.mapIt), fx.mapKey(k.t, env.mapItInfo.kt)), tBool}
 	case "mapdom":
 		// mapdom(m, k): key k present in map m
 		m := env.expr(e.Args[0])
@@ -894,6 +905,21 @@ func (env *SpecEnv) callSpec(sf *SpecFunc, args []specVal) specVal {
 			if strings.Contains(body.t.String(), "HSPEC_") {
 				env.fail("spec %s reads a heap component that is not listed in its reads clause", sf.Name)
 			}
+		} else if sf.Triggered {
+			// f(args) == body as an axiom with trigger f(args): a definition (body does not mention f),
+			// unfolded by the solver only where an application of f occurs
+			fx.c.DeclareFun(name, sorts, fx.e.sortOf(rt))
+			specBodyDepth++
+			body := inner.expr(sf.Body)
+			specBodyDepth--
+			if strings.Contains(body.t.String(), "HSPEC_") {
+				env.fail("spec %s reads a heap component that is not listed in its reads clause", sf.Name)
+			}
+			if strings.Contains(body.t.String(), "("+sanitize(name)+" ") {
+				env.fail("triggered spec %s must not be recursive", sf.Name)
+			}
+			app := App(name, fx.e.sortOf(rt), params...)
+			fx.c.Axiom("definition of "+sf.Name, Forall(params, Eq(app, body.t), app))
 		} else {
 			specBodyDepth++
 			body := inner.expr(sf.Body)
@@ -956,8 +982,16 @@ func (env *SpecEnv) assignLoc(e *SExpr) *assignLoc {
 	case "field":
 		x := env.expr(e.Args[0])
 		t := x.typ
+		cur := x.t
 		if p, ok := t.Underlying().(*types.Pointer); ok {
 			t = p.Elem()
+		} else if _, isStruct := t.Underlying().(*types.Struct); isStruct && e.Args[0].Kind == "field" {
+			// field of a struct-typed field (p.a.b): the embedded object's reference
+			inner := env.assignLoc(e.Args[0])
+			if inner == nil || inner.si == nil || inner.whole != "" {
+				env.fail("assigns %s: cannot resolve the enclosing field", e)
+			}
+			cur = fx.emb(inner.obj, inner.si, inner.fidx)
 		} else {
 			env.fail("assigns %s: base is not a pointer", e)
 		}
@@ -969,7 +1003,6 @@ func (env *SpecEnv) assignLoc(e *SExpr) *assignLoc {
 		if path == nil {
 			env.fail("assigns: no field %s", e.Name)
 		}
-		cur := x.t
 		ct := t
 		for k, idx := range path {
 			si := fx.e.structOf(ct)
@@ -1014,7 +1047,11 @@ func (env *SpecEnv) assignLoc(e *SExpr) *assignLoc {
 			return &assignLoc{ref: SlcBase(x.t), refKind: "elem", ptype: et, slc: x.t}
 		case "deref":
 			x := env.expr(e.Args[0])
-			return &assignLoc{ref: x.t, refKind: "pcell"}
+			var pt types.Type
+			if p, ok := x.typ.Underlying().(*types.Pointer); ok {
+				pt = p.Elem()
+			}
+			return &assignLoc{ref: x.t, refKind: "pcell", ptype: pt}
 		case "ghost":
 			sf := fx.e.findSpec(env.pkg, e.Args[0].String())
 			if sf == nil || !sf.Ghost {
